@@ -307,6 +307,7 @@ impl Handler for NoDeprecatedDenoApiHandler {
     use deno_ast::view::Expr;
     if_chain! {
       if let Expr::Ident(obj) = &member_expr.obj;
+      if obj.ctxt() == ctx.unresolved_ctxt();
       if ctx.scope().is_global(&obj.inner.to_id());
       let obj_symbol: &str = obj.sym();
       if let Some(prop_symbol) = extract_symbol(&member_expr.prop);
@@ -338,6 +339,7 @@ impl Handler for NoDeprecatedDenoApiHandler {
       if let ast_view::TsEntityName::Ident(ident) = qualified_name.left;
       if ident.sym() == "Deno";
       if qualified_name.right.sym() == "File";
+      if ident.ctxt() == ctx.unresolved_ctxt();
       if ctx.scope().is_global(&ident.inner.to_id());
       then {
         let deprecated_api = DeprecatedApi::File;
